@@ -75,6 +75,7 @@ def verify_function(eng, key: str) -> FnReport:
     eng.cur_contract = c
     eng.index_loops(fn.node)
     n_before = len(eng.obligations)
+    n_unv0 = len(eng.unverified_paths)
     try:
         st = entry_state(eng, fn, c)
         penv = dict(st.env)
@@ -146,7 +147,11 @@ def verify_function(eng, key: str) -> FnReport:
             else:
                 raise E.Unsupported(f"outcome {out.kind} at function level")
         rep.paths = n_paths
-        if n_paths == 0:
+        if n_paths == 0 and len(eng.unverified_paths) > n_unv0:
+            rep.status = "unsupported"
+            rep.reason = "every path hit an unsupported construct: " + eng.unverified_paths[-1]
+            del eng.obligations[n_before:]
+        elif n_paths == 0:
             rep.status = "error"
             rep.reason = "no feasible path (vacuous)"
     except E.Drift as d:
